@@ -13,6 +13,17 @@ CLAIMED = {
         "technique": "machine-checked proof in Rocq (Coq 8.16) over an executable Gallina model + differential correspondence check and table regeneration",
         "design": "DESIGN.md §7 C01",
     },
+    "C05": {
+        "text": "Rocq theorems C05_args_equiv / C05_strv_equiv: for every raw value on which the reference model of systemd's extract_first_word "
+                "(UNQUOTE|CUNESCAPE|RELAX resp. UNQUOTE|RETAIN_ESCAPE) succeeds, the model of SplitWord resp. SplitStrv collects exactly systemd's word list "
+                "(so no word after another word is dropped, and an explicitly quoted empty word is kept); proved by a simulation between one-character-per-step machines, "
+                "unbounded in length. Full on systemd's domain (8-bit escapes and surrogate \\u escapes are mapped/rejected as documented). Tied to /repo by the regenerated "
+                "escape tables and WHITESPACE, a splitter-call-site inventory (which key uses which splitter), differential runs, and direct oracles (extracted spec and the real libsystemd) on implementation output; "
+                "the spec itself is validated against libsystemd on every run.",
+        "note": "Trusted: Coq kernel; Spec/SdExtract.v (validated against libsystemd-shared via ctypes); extraction; driver; generators.",
+        "technique": "machine-checked proof in Rocq (Coq 8.16): simulation of two state machines + differential correspondence check",
+        "design": "DESIGN.md §7 C05",
+    },
     "C20": {
         "text": "Rocq theorem C20_exact: for every code-point string s, the model of the hand-written recogniser accepts s iff s is in the language "
                 "digits+ ('-' digits+)? ('/tcp'|'/udp')? stated declaratively (PortRe); full for the recogniser. Tied to /repo by differential runs "
